@@ -158,7 +158,10 @@ def run(report, tier: str, seed: int, prop: str) -> dict:
                 disk = st["disk"]
                 recd = {"a": "v0", "d/b": "v0", "d/c": "absent"}
                 lost = [p for p in PATHS if disk[p] != recd[p] and p not in gst["upd"] and p not in gst["del"]]
-                if lost:
+                if set(gst["upd"]) & set(gst["del"]):
+                    # (process_nglob_changes refuses overlapping sets with a ConsistencyError)
+                    clause = "path_recorded_as_updated_and_as_deleted"
+                elif lost:
                     clause = "changed_path_in_neither_set"
                 elif gst != want:
                     clause = "watcher_sets_differ_from_specification"
